@@ -173,13 +173,13 @@ pub const PROPS: &[PropSpec] = &[
     PropSpec {
         id: "C20",
         engine: "e20",
-        mix: &[],
-        classes: &["import/", "http/dropped-connection"],
+        mix: &[("e20", 5), ("e2", 1)],
+        classes: &["import/", "http/dropped-connection", "append/rejected-valid"],
         nontrivial: &[&["import:compared"], &["export:multi-context", "import:duplicate", "import:registrations-last"]],
-        must_reach: &["import:compared", "export:multi-context", "import:duplicate", "import:registrations-last", "import:rejected", "remove:live", "gc:drain-nonempty"],
+        must_reach: &["import:compared", "export:multi-context", "import:duplicate", "import:registrations-last", "import:rejected", "remove:live", "gc:drain-nonempty", "ctx:append-raced-reimport"],
         quick_runs: 1500,
         thorough_runs: 100_000,
-        rule: "a source store is built by a generated history (several contexts, all persistent TTL kinds, removes, imports, collector drains, shared content), settled and exported (all frames + referenced content); everything is imported into an empty store through POST /cas and POST /import in a seeded permutation with duplicates (context registrations optionally after the frames that use them), plus a NUL-topic frame and malformed JSON that must be refused whole; source and target must then have equal observation sets (ids, order, fields, per-context streams, heads, by-id lookups, content bytes) and equal usable contexts, immediately and after reopening the target; non-trivial = a comparison ran on a store with several contexts or with duplicate/late-registration imports; distinct = distinct trace hash",
+        rule: "a source store is built by a generated history (several contexts, all persistent TTL kinds, removes, imports, collector drains, shared content), settled and exported (all frames + referenced content); everything is imported into an empty store through POST /cas and POST /import in a seeded permutation with duplicates (context registrations optionally after the frames that use them), plus a NUL-topic frame and malformed JSON that must be refused whole; source and target must then have equal observation sets (ids, order, fields, per-context streams, heads, by-id lookups, content bytes) and equal usable contexts, immediately and after reopening the target; one run in six instead imports a stored registration again, unchanged, on a thread of its own while writer threads append into that context (E2; the instant before insert_frame's commit is a step boundary): no append may be refused at any moment; non-trivial = a comparison ran on a store with several contexts or with duplicate/late-registration imports; distinct = distinct trace hash",
     },
     PropSpec {
         id: "C14",
